@@ -27,7 +27,8 @@ NONLIN = ["newton", "broyden1", "broyden2", "linearmixing"]
 class Problem(object):
     """f_root(y) = 0 has the unique solution ystar; contraction constant kappa < 1 of g = y - f_root"""
 
-    def __init__(self, name, seed, n=3, dtype=DT):
+    def __init__(self, name, seed, n=3, dtype=DT, lead=()):
+        """lead: leading (batch) dimensions of the unknown; the map acts on the last dimension"""
         g = torch.Generator().manual_seed(seed)
         self.name = name
         self.n = n
@@ -42,18 +43,19 @@ class Problem(object):
             return t.to(dtype)
         W = rnd(n, n)
         self.W = W / max(1.0, float(torch.linalg.matrix_norm(W, 2)))
-        self.c = rnd(n) * 0.5
+        self.c = rnd(*lead, n) * 0.5
+        self.lead = tuple(lead)
         self.kappa = {"tanh-weak": 0.2, "tanh-strong": 0.5, "linear": 0.4, "const": 0.0, "shift": 0.0, "atroot": 0.0}[name]
-        self.y0 = torch.zeros(n, dtype=dtype)
+        self.y0 = torch.zeros(*lead, n, dtype=dtype)
         if name in ("shift", "atroot"):       # f(y) = y - 1 : every Newton-like first step lands exactly on the root
-            self.c = torch.ones(n, dtype=dtype)
+            self.c = torch.ones(*lead, n, dtype=dtype)
         if name == "atroot":                  # ... and here the initial guess already is the root
-            self.y0 = torch.ones(n, dtype=dtype)
+            self.y0 = torch.ones(*lead, n, dtype=dtype)
         k = self.kappa
         if name in ("tanh-weak", "tanh-strong"):
-            self.g = lambda y: self.c + k * torch.tanh(self.W @ y)
+            self.g = lambda y: self.c + k * torch.tanh(y @ self.W.T)
         elif name == "linear":
-            self.g = lambda y: self.c + k * (self.W @ y)
+            self.g = lambda y: self.c + k * (y @ self.W.T)
         else:
             self.g = lambda y: self.c + 0 * y
         y = self.y0
@@ -64,17 +66,17 @@ class Problem(object):
         if not cplx and name not in ("shift", "atroot"):
             ym = self.c.clone()
             for _ in range(30):             # Newton on the gradient of the strongly convex objective
-                yy = ym.clone().requires_grad_()
-                gr = torch.autograd.grad(self.obj(yy), yy, create_graph=True)[0]
-                H = torch.stack([torch.autograd.grad(gr[k], yy, retain_graph=True)[0] for k in range(n)])
-                ym = (yy - torch.linalg.solve(H, gr)).detach()
+                yy = ym.clone().reshape(-1).requires_grad_()
+                gr = torch.autograd.grad(self.obj(yy.reshape(self.y0.shape)), yy, create_graph=True)[0]
+                H = torch.stack([torch.autograd.grad(gr[k], yy, retain_graph=True)[0] for k in range(yy.numel())])
+                ym = (yy - torch.linalg.solve(H, gr)).detach().reshape(self.y0.shape)
             self.ymin = ym
 
     def root(self, y):
         return y - self.g(y)
 
     def obj(self, y):          # strongly convex (mu >= 1), real only
-        return 0.5 * ((y - self.c) ** 2).sum() + self.kappa * torch.log(torch.cosh(self.W @ y)).sum()
+        return 0.5 * ((y - self.c) ** 2).sum() + self.kappa * torch.log(torch.cosh(y @ self.W.T)).sum()
 
 
 def cls_res(v, tol):
@@ -112,7 +114,7 @@ def index_of(vec, cands):
 
 def run_case(tid, functional, method, P, f_tol, x_tol, maxiter, opts):
     """one execution -> trace dict"""
-    n = P.n
+    n = P.y0.numel()
     kind = "opt" if method in ("gd", "adam") else ("anderson" if method == "anderson_acc" else "nonlin")
     evals = []          # for opt: (x, f)
     cfg = {"functional": functional, "method": method, "problem": P.name, "dtype": str(P.dtype), "f_tol": f_tol, "x_tol": x_tol,
@@ -211,8 +213,10 @@ def cases(thorough, seed):
     for s in seeds:
         for fam in fams:
             for dtype in ((DT, torch.complex128) if fam in ("tanh-weak", "linear", "shift", "atroot") else (DT,)):
-                P = Problem(fam, 500 + s, n=3 if s % 2 == 0 else 6, dtype=dtype)
-                for (ft, xt) in tols:
+                Ps = [Problem(fam, 500 + s, n=3 if s % 2 == 0 else 6, dtype=dtype)]
+                if fam in ("tanh-weak", "linear") and s == seeds[0]:
+                    Ps.append(Problem(fam, 700 + s, n=3, dtype=dtype, lead=(2,)))      # unknown of shape (2, 3)
+                for P, (ft, xt) in [(P_, tl) for P_ in Ps for tl in tols]:
                     for m in NONLIN:
                         o = {}
                         if m == "linearmixing":
@@ -229,7 +233,7 @@ def cases(thorough, seed):
                         out.append(("equilibrium", "anderson_acc", P, ft, xt, 3, {}))
                         for m in ("broyden1", "newton"):
                             out.append(("equilibrium", m, P, ft, xt, None, {}))
-                if not dtype.is_complex and fam not in ("shift", "atroot"):
+                for P in (Ps if (not dtype.is_complex and fam not in ("shift", "atroot")) else []):
                     for m in ("broyden1", "broyden2"):
                         out.append(("minimize", m, P, None, None, None, {}))
                         out.append(("minimize", m, P, 1e-9, 1e-9, None, {}))
@@ -289,7 +293,7 @@ def run(ctx):
         tr = run_case(tid, fn, m, P, ft, xt, mi, o)
         traces.append(tr)
         c = tr["cfg"]
-        ctx.case(key=(fn, m, P.name, str(P.dtype), P.n, ft, xt, mi, json.dumps(o, sort_keys=True)))
+        ctx.case(key=(fn, m, P.name, str(P.dtype), tuple(P.y0.shape), ft, xt, mi, json.dumps(o, sort_keys=True)))
     rej = ctx.validate_traces("Trace_RootLoop.tla", "Trace_RootLoop.cfg", traces, shards=16)
     bytid = {t["tid"]: t for t in traces}
     for tid, matched, total in rej:
